@@ -169,6 +169,14 @@ def _run_task(i):
         elif res.status == "unknown":
             d["detail"] = res.detail
         out["results"].append(d)
+    if ctx.tier == "thorough" and task.kind == "function" and not os.environ.get("VERIF_NESTED"):
+        from . import cosim
+        if cosim.selected(task.name, len(_TASKS)):
+            try:
+                out["cosim"] = cosim.cosim_task(ctx, prop, task, seed=ctx.seed)
+            except Exception as ex:
+                out["cosim"] = {"task": task.name, "samples": 0, "agree": 0, "not_comparable": 0, "disagree": [],
+                                "skipped": "cosim error %s: %s" % (type(ex).__name__, str(ex)[:200])}
     out["wall_s"] = round(time.time() - t0, 3)
     return out
 
@@ -217,6 +225,11 @@ def run_property(prop, build_tasks, level="proof", tier="quick", seed=0, assumpt
     if tier == "thorough":
         from . import thorough
         tinfo = thorough.extras(ctx, prop, outs, corpus=not os.environ.get("VERIF_NESTED") and not os.environ.get("VERIF_ONLY"))
+
+        for d in (tinfo.get("cosimulation") or {}).get("disagreements", []):
+            # the engine's semantics differs from the compiled code on a concrete input: nothing this check proves is to be believed
+            outs.append({"task": "cosim:" + d.get("task", "?"), "results": [], "covers": [], "functions": [], "stats": {}, "notes": [],
+                         "error": "ENGINE-DISAGREEMENT in co-simulation: %s" % json.dumps(d, default=str)[:600]})
 
         def extra2(c, o, _t=tinfo, _e=extra_cov):
             d = dict(_e(c, o)) if _e else {}
